@@ -32,7 +32,7 @@ use world::*;
 type PoolSvc = ConnectionPoolService<SimTransport, SimProtocol, RecSvc, SimBody>;
 type BoxFut = Pin<Box<dyn Future<Output = Result<http::Response<SimBody>, ClientError>>>>;
 
-const ORIGINS: [&str; 8] = [
+const ORIGINS: [&str; 12] = [
     "http://a.test",
     "https://a.test",
     "http://a.test:8080",
@@ -42,6 +42,11 @@ const ORIGINS: [&str; 8] = [
     // with user information: same host, two more ports
     "http://u:p@a.test:9090",
     "http://u@a.test:7070",
+    // the websocket schemes: same host, with and without ports
+    "ws://a.test:8001",
+    "ws://a.test:8002",
+    "wss://a.test:9443",
+    "wss://a.test",
 ];
 
 #[derive(Clone, Copy, Debug, Serialize, Deserialize, PartialEq, Eq)]
@@ -83,6 +88,9 @@ pub enum Step {
     Bg,
     Advance { ms: u64 },
     DropService,
+    /// back-pressure: close / open the readiness of the transport (`transport`) or of the service
+    /// below the pool (`!transport`)
+    Gate { transport: bool, open: bool },
 }
 
 impl Step {
@@ -103,6 +111,7 @@ impl Step {
             Step::Bg => 13,
             Step::Advance { .. } => 14,
             Step::DropService => 15,
+            Step::Gate { .. } => 16,
         }
     }
 }
@@ -130,6 +139,12 @@ pub struct PoolCfg {
     /// stub connections become busy when the send_request future is first polled, not in the call
     #[serde(default)]
     pub lazy_send: bool,
+    /// the schedule may close and open the transport's readiness (poll_ready answers Pending)
+    #[serde(default)]
+    pub gate_transport: bool,
+    /// the schedule may close and open the readiness of the service below the pool
+    #[serde(default)]
+    pub gate_inner: bool,
 }
 
 #[derive(Clone, Debug, Serialize, Deserialize)]
@@ -184,6 +199,9 @@ struct ReqSlot {
     is_probe: bool,
     dialed: bool,
     stage_at_timeout: Option<&'static str>,
+    /// the service was not ready (poll_ready) when the request was issued: the handle and the
+    /// request wait here, as they would inside tower's Oneshot
+    unready: Option<(Svc, http::Request<SimBody>)>,
 }
 
 #[derive(Clone)]
@@ -329,7 +347,7 @@ fn gen_cfg(profile: &str, r: &mut Rng) -> PoolCfg {
     let alpn_h2 = if matches!(profile, "C15") {
         vec![]
     } else {
-        (0..origins.len()).filter(|i| origins[*i].starts_with("https") && r.chance(1, 2)).collect()
+        (0..origins.len()).filter(|i| (origins[*i].starts_with("https") || origins[*i].starts_with("wss")) && r.chance(1, 2)).collect()
     };
     let idle_timeout_ms = match profile {
         "C04" | "C14" => None,
@@ -365,6 +383,16 @@ fn gen_cfg(profile: &str, r: &mut Rng) -> PoolCfg {
         pool_lock_contended: r.chance(1, 3),
         built_on_other_runtime: r.chance(1, 4),
         lazy_send: r.chance(1, 3),
+        gate_transport: match profile {
+            "C14" => r.chance(1, 2),
+            "C03" | "C15" => r.chance(1, 4),
+            _ => false,
+        },
+        gate_inner: match profile {
+            "C15" => r.chance(1, 2),
+            "C03" | "C14" => r.chance(1, 4),
+            _ => false,
+        },
     }
 }
 
@@ -379,6 +407,21 @@ impl Svc {
         match self {
             Svc::Plain(s) => Svc::Plain(s.clone()),
             Svc::Timed(s) => Svc::Timed(s.clone()),
+        }
+    }
+}
+
+impl Svc {
+    fn poll_ready_any(&mut self, cx: &mut Context<'_>) -> Poll<Result<(), ClientError>> {
+        match self {
+            Svc::Plain(s) => s.poll_ready(cx),
+            Svc::Timed(s) => s.poll_ready(cx),
+        }
+    }
+    fn call_any(&mut self, request: http::Request<SimBody>) -> BoxFut {
+        match self {
+            Svc::Plain(s) => Box::pin(s.call(request)),
+            Svc::Timed(s) => Box::pin(s.call(request)),
         }
     }
 }
@@ -546,6 +589,12 @@ impl<'a> Run<'a> {
         if wt.drop_service > 0 && self.svc.is_some() && issued >= 2 {
             v.push((wt.drop_service, Step::DropService));
         }
+        if self.case.cfg.gate_transport {
+            v.push((if w.transport_gate_closed { 6 } else { 3 }, Step::Gate { transport: true, open: w.transport_gate_closed }));
+        }
+        if self.case.cfg.gate_inner {
+            v.push((if w.inner_gate_closed { 6 } else { 3 }, Step::Gate { transport: false, open: w.inner_gate_closed }));
+        }
         drop(w);
         v.into_iter()
             .map(|(wgt, s)| match s {
@@ -570,7 +619,7 @@ impl<'a> Run<'a> {
     fn translate(&self, step: &Step) -> Option<Step> {
         let m = |l: &u32| self.lmap.get(l).copied();
         Some(match step {
-            Step::Issue { .. } | Step::Bg | Step::Advance { .. } | Step::DropService => step.clone(),
+            Step::Issue { .. } | Step::Bg | Step::Advance { .. } | Step::DropService | Step::Gate { .. } => step.clone(),
             Step::Poll { req } => Step::Poll { req: m(req)? },
             Step::Cancel { req } => Step::Cancel { req: m(req)? },
             Step::DialOk { req } => Step::DialOk { req: m(req)? },
@@ -841,6 +890,24 @@ impl<'a> Run<'a> {
                 }
                 true
             }
+            Step::Gate { transport, open } => {
+                let mut w = self.w.lock();
+                let closed = if *transport { &mut w.transport_gate_closed } else { &mut w.inner_gate_closed };
+                if *closed != *open {
+                    return false; // already in that state
+                }
+                *closed = !*open;
+                let wakers = if *open { std::mem::take(if *transport { &mut w.transport_wakers } else { &mut w.inner_wakers }) } else { vec![] };
+                w.ev(60, *transport as u64, *open as u64);
+                drop(w);
+                if !*open {
+                    self.out.count(if *transport { "fault.transport_not_ready" } else { "fault.inner_service_not_ready" });
+                }
+                for wk in wakers {
+                    wk.wake();
+                }
+                true
+            }
         }
     }
 
@@ -1005,12 +1072,25 @@ impl<'a> Run<'a> {
         }
         let waker = Arc::new(FlagWaker { woken: AtomicBool::new(false), count: AtomicU32::new(0) });
         let svc = if req % 2 == 1 && self.svc2.is_some() { self.svc2.as_mut().unwrap() } else { self.svc.as_mut().unwrap() };
-        let called = catch_unwind(AssertUnwindSafe(|| -> BoxFut {
-            match svc {
-                Svc::Plain(s) => Box::pin(s.call(request)),
-                Svc::Timed(s) => Box::pin(s.call(request)),
+        // tower's contract, as Oneshot / Client::request follow it: readiness first, then the call
+        // (the pooled service is always ready on the unchanged tree, so the call happens here)
+        let wk: Waker = waker.clone().into();
+        let mut cx = Context::from_waker(&wk);
+        let mut request = Some(request);
+        let mut unready = None;
+        let called = catch_unwind(AssertUnwindSafe(|| -> Result<Option<BoxFut>, ClientError> {
+            match svc.poll_ready_any(&mut cx) {
+                Poll::Ready(Ok(())) => Ok(Some(svc.call_any(request.take().unwrap()))),
+                Poll::Ready(Err(e)) => Err(e),
+                Poll::Pending => {
+                    unready = Some((svc.another_handle(), request.take().unwrap()));
+                    Ok(None)
+                }
             }
         }));
+        if unready.is_some() {
+            self.out.count("probe.pooled_service_not_ready_at_issue");
+        }
         let issue_step = self.w.lock().step;
         let mut slot = ReqSlot {
             origin,
@@ -1029,10 +1109,16 @@ impl<'a> Run<'a> {
             is_probe,
             dialed: false,
             stage_at_timeout: None,
+            unready: None,
         };
         let panicked = called.is_err();
         match called {
-            Ok(f) => slot.fut = Some(f),
+            Ok(Ok(Some(f))) => slot.fut = Some(f),
+            Ok(Ok(None)) => slot.unready = unready,
+            Ok(Err(e)) => {
+                slot.state = RState::DoneErr(format!("{}", e));
+                slot.done_ms = Some(now);
+            }
             Err(_) => slot.state = RState::Panicked,
         }
         self.reqs.push(slot);
@@ -1082,8 +1168,40 @@ impl<'a> Run<'a> {
 
     fn do_poll(&mut self, req: u32) -> bool {
         let i = req as usize;
-        if i >= self.reqs.len() || self.reqs[i].state != RState::Pending || self.reqs[i].fut.is_none() {
+        if i >= self.reqs.len() || self.reqs[i].state != RState::Pending || (self.reqs[i].fut.is_none() && self.reqs[i].unready.is_none()) {
             return false;
+        }
+        if let Some((mut svc, request)) = self.reqs[i].unready.take() {
+            // still inside "Oneshot": ask for readiness again, call once it is there
+            let waker: Waker = self.reqs[i].waker.clone().into();
+            let mut cx = Context::from_waker(&waker);
+            let mut request = Some(request);
+            let r = catch_unwind(AssertUnwindSafe(|| match svc.poll_ready_any(&mut cx) {
+                Poll::Ready(Ok(())) => Poll::Ready(Ok(svc.call_any(request.take().unwrap()))),
+                Poll::Ready(Err(e)) => Poll::Ready(Err(e)),
+                Poll::Pending => Poll::Pending,
+            }));
+            match r {
+                Ok(Poll::Ready(Ok(f))) => self.reqs[i].fut = Some(f), // and poll it below
+                Ok(Poll::Ready(Err(e))) => {
+                    self.reqs[i].state = RState::DoneErr(format!("{}", e));
+                    self.reqs[i].done_ms = Some(self.now_ms());
+                    return true;
+                }
+                Ok(Poll::Pending) => {
+                    self.reqs[i].waker.woken.store(false, Ordering::SeqCst);
+                    self.reqs[i].polls += 1;
+                    self.reqs[i].unready = Some((svc, request.take().unwrap()));
+                    self.w.lock().ev(2, req as u64, 1);
+                    self.judge_expectation(req, None);
+                    return true;
+                }
+                Err(_) => {
+                    self.reqs[i].state = RState::Panicked;
+                    self.note_panics(Some(req), "poll_ready");
+                    return true;
+                }
+            }
         }
         let was_woken = self.reqs[i].waker.woken.swap(false, Ordering::SeqCst);
         if !was_woken && self.reqs[i].polls > 0 {
@@ -1136,6 +1254,14 @@ impl<'a> Run<'a> {
             let step = self.w.lock().step;
             self.checkout_ended.push((o, step));
         }
+        self.judge_expectation(req, new_handoff);
+        true
+    }
+
+    /// C14: a request that was the first live waiter when a connection became available must
+    /// have taken it by the end of its next poll.
+    fn judge_expectation(&mut self, req: u32, new_handoff: Option<Handoff>) {
+        let i = req as usize;
         if let Some((c, set_step)) = self.reqs[i].expect.take() {
             match &new_handoff {
                 Some(h) if h.conn == c => {
@@ -1153,10 +1279,17 @@ impl<'a> Run<'a> {
                             req, c, set_step, got, self.reqs[i].state
                         ),
                     );
+                    // whatever holds that connection now, it carries no request: as far as the
+                    // idle limit is concerned the client retains it
+                    let now = self.now_ms();
+                    let mut w = self.w.lock();
+                    let cc = &mut w.conns[c];
+                    if cc.open && cc.holders.is_empty() && !cc.busy && cc.handles_live > 0 && cc.idle_since.is_none() {
+                        cc.idle_since = Some(now);
+                    }
                 }
             }
         }
-        true
     }
 
     fn do_cancel(&mut self, req: u32) -> bool {
@@ -1204,7 +1337,8 @@ impl<'a> Run<'a> {
             }
         }
         let fut = self.reqs[i].fut.take();
-        let r = catch_unwind(AssertUnwindSafe(move || drop(fut)));
+        let unready = self.reqs[i].unready.take();
+        let r = catch_unwind(AssertUnwindSafe(move || drop((fut, unready))));
         if r.is_err() {
             self.note_panics(Some(req), "drop");
         }
@@ -1508,6 +1642,10 @@ impl<'a> Run<'a> {
                     .iter()
                     .enumerate()
                     .filter(|(j, r)| r.state == RState::Pending && w.req_origin[*j] == o && !w.handoffs.iter().any(|x| x.req == *j as u32))
+                    // a connection travels to a waiting request through its waiter channel, which
+                    // wakes it; at its next poll it takes the connection. Only a request that has
+                    // not been polled since can have one in transit.
+                    .filter(|(_, r)| r.polls == 0 || r.waker.woken.load(Ordering::SeqCst))
                     .count();
                 let surely_idle = retained - retained.min(waiting);
                 if surely_idle > max_idle {
@@ -1576,6 +1714,9 @@ impl<'a> Run<'a> {
     // ---------------------------------------------------------------- drain + probe
     async fn drain(&mut self) {
         self.draining = true;
+        // back-pressure ends: from here on everything must be able to finish
+        self.step_now(Step::Gate { transport: true, open: true }).await;
+        self.step_now(Step::Gate { transport: false, open: true }).await;
         for _round in 0..200 {
             let mut progress = false;
             // resolve everything outstanding, fault-free, in id order
